@@ -43,6 +43,11 @@ Sandwich ==
   \cup { B2("-", F("x"), B2("-", B2("*", p, F("c")), q)) : p \in Groups, q \in Groups }
   \cup { B2(o, B2("=", F("x"), N("0")), B2(o2, p, q)) : o \in BoolOps, o2 \in BoolOps, p \in BGroups, q \in BGroups }
   \cup { [k |-> "not", a |-> B2(o2, p, q)] : o2 \in BoolOps, p \in BGroups, q \in BGroups }
+  \* NOT NOT over a group, as an operand of a connective (both sides), alone, and threefold
+  \cup { B2(o, [k |-> "not", a |-> [k |-> "not", a |-> g]], B2("=", F("x"), N("0"))) : o \in BoolOps, g \in BGroups }
+  \cup { B2(o, B2("=", F("x"), N("0")), [k |-> "not", a |-> [k |-> "not", a |-> g]]) : o \in BoolOps, g \in BGroups }
+  \cup { [k |-> "not", a |-> [k |-> "not", a |-> g]] : g \in BGroups }
+  \cup { B2("AND", [k |-> "not", a |-> [k |-> "not", a |-> [k |-> "not", a |-> g]]], B2("=", F("x"), N("0"))) : g \in BGroups }
 
 Trees == Sandwich \cup
     IF Mode = "edge" THEN
